@@ -1,7 +1,8 @@
 // T1b — association list (inline array of 4 slots) standing in for std::collections::BTreeMap (snapshot
 // transform, cfg(kani) only). Same contract for the operations the trap code uses:
 // entry (Vacant: key/insert, Occupied: key/get/get_mut/into_mut), get / get_mut /
-// values_mut / iter / iter_mut / IntoIterator for &mut; iteration in key order.
+// values_mut / iter / iter_mut / IntoIterator for &mut; iteration is in SLOT order (= insertion order while nothing is
+// removed), not key order: harnesses whose post-condition could depend on the order insert keys in ascending order.
 // Also: a unit stand-in for `Location` in trap records (T7).
 #![allow(dead_code)]
 
